@@ -158,7 +158,8 @@ def run_check(prop, tier, seed, replay=None):
         import_repo()
         if replay:
             return mod.replay(ctx, replay)
-        from . import decoy
+        from . import decoy, mine
+        mine.SIZE_CAP = (1 << 21) + 64 if tier == 'thorough' else 70000
         decoy.burst(full=True)   # other objects with other code tables / string indexes were at work before the check starts
         for _ in range(3):
             decoy.burst()
